@@ -21,6 +21,9 @@ Operations (query "form": "typed" = numpy array of the key dtype, "list" = Pytho
             ["setp", [k..], [v..]]  t[keys] = per-key values (distinct keys)        ["fill", v]
             ["iaddn", c]  t += c            ["iaddt", v2]  t += HashTable(keys, v2, mod)
 
+Values are plain ints.  Assigned values (1100, 2100, 3100.., -4100) are deliberately outside the range of the 8-bit
+key dtypes and negative for fill: what a lookup answers must not depend on the key dtype.
+
 Deliberately NOT checked (the statement does not promise it): single-key lookup / assignment of an absent key,
 negative keys with unsigned dtypes, keys or samples outside the dtype range, float values / value-dtype coercion,
 per-key assignment with repeated keys, == and + between tables whose keys were given in another order or with
@@ -501,8 +504,13 @@ def _violations(case):
             elif name == "add":
                 v2 = op[1]
                 D2 = {k: (v2 if isinstance(v2, int) else v2[i]) for i, k in enumerate(keys)}
-                t2 = _mk(keys, dt, v2, mod)
                 k2 = "scalar" if isinstance(v2, int) else "array"
+                try:
+                    t2 = _mk(keys, dt, v2, mod)
+                except Exception as e:
+                    yield {"msg": f"{c}: HashTable(keys, {v2}) raised {type(e).__name__}: {str(e)[:120]}",
+                           "sig": _exc(e, "init", dt)}
+                    continue
                 try:
                     r = t + t2
                 except Exception as e:
@@ -513,10 +521,15 @@ def _violations(case):
                 yield from _compare(r, {k: D[k] + D2[k] for k in keys}, keys, dt, absent, f"add:{st}+{k2}", rst, c)
                 yield from _compare(t2, D2, keys, dt, absent, "add-operand", k2, c)
             elif name == "eq":
-                same = _mk(keys, dt, [D[k] for k in keys], mod)
                 dv = [D[k] for k in keys]
                 dv[-1] += 1
-                diff = _mk(keys, dt, dv, mod)
+                try:
+                    same = _mk(keys, dt, [D[k] for k in keys], mod)
+                    diff = _mk(keys, dt, dv, mod)
+                except Exception as e:
+                    yield {"msg": f"{c}: building the comparison table raised {type(e).__name__}: {str(e)[:120]}",
+                           "sig": _exc(e, "init", dt)}
+                    continue
                 for a, b, ex, lab in ((t, same, True, "equal-dict"), (same, t, True, "equal-dict"), (t, t, True, "self"),
                                       (t, diff, False, "one-value-differs"), (diff, t, False, "one-value-differs")):
                     try:
